@@ -24,30 +24,6 @@ Proof.
   - apply sig_eqb_eq in E2. subst. rewrite sig_eqb_refl in E1. discriminate.
 Qed.
 
-(* impl Ord for Signature is reflexive and antisymmetric (it is neither transitive nor consistent with ==) *)
-Lemma sig_cmp_refl : forall a, sig_cmp a a = Eq.
-Proof.
-  induction a using sig_ind'; simpl; auto.
-  - rewrite IHa1. exact IHa2.
-  - apply lex_refl. exact H.
-Qed.
-
-Lemma sig_cmp_dual : forall a b, sig_cmp b a = CompOpp (sig_cmp a b).
-Proof.
-  induction a using sig_ind'; intros b; destruct b; simpl; try reflexivity.
-  - apply IHa.
-  - rewrite IHa1. destruct (sig_cmp a1 b1); simpl; auto.
-  - apply lex_dual. exact H.
-  - apply IHa.
-Qed.
-
-Lemma sigs_cmp_refl m : lex sig_cmp m m = Eq.
-Proof. apply lex_refl. induction m; constructor; auto. apply sig_cmp_refl. Qed.
-Lemma sigs_cmp_dual m m' : lex sig_cmp m' m = CompOpp (lex sig_cmp m m').
-Proof. apply lex_dual. clear. induction m; constructor; auto. intros. apply sig_cmp_dual. Qed.
-Lemma sigs_eqb_sym m m' : list_eqb sig_eqb m m' = list_eqb sig_eqb m' m.
-Proof. apply list_eqb_sym. clear. induction m; constructor; auto. intros. apply sig_eqb_sym. Qed.
-
 (* ---- the reference order ---- *)
 Lemma sig_tcmp_dual : forall a b, sig_tcmp b a = CompOpp (sig_tcmp a b).
 Proof.
@@ -97,3 +73,34 @@ Proof.
   - apply lex_T4. exact H.
   - apply IHa.
 Qed.
+
+(* ---- impl Ord for Signature (after fix: commit 668536e1) IS the reference order ---- *)
+Lemma lex_ext {A : Type} (c d : A -> A -> comparison) xs :
+  Forall (fun x => forall y, c x y = d x y) xs -> forall ys, lex c xs ys = lex d xs ys.
+Proof. induction 1 as [|x xs Hx _ IH]; intros [|y ys]; simpl; try reflexivity. rewrite Hx, IH. reflexivity. Qed.
+
+Lemma sig_cmp_tcmp : forall a b, sig_cmp a b = sig_tcmp a b.
+Proof.
+  induction a using sig_ind'; intros b; destruct b; try reflexivity.
+  - apply IHa.
+  - simpl. rewrite IHa1, IHa2. destruct (sig_tcmp a1 b1); reflexivity.
+  - simpl. apply lex_ext. exact H.
+  - apply IHa.
+Qed.
+
+Lemma sig_cmp_refl a : sig_cmp a a = Eq.
+Proof. rewrite sig_cmp_tcmp. apply sig_tcmp_refl. Qed.
+Lemma sig_cmp_dual a b : sig_cmp b a = CompOpp (sig_cmp a b).
+Proof. rewrite !sig_cmp_tcmp. apply sig_tcmp_dual. Qed.
+Lemma sig_cmp_Eq a b : sig_cmp a b = Eq <-> sig_eqb a b = true.
+Proof. rewrite sig_cmp_tcmp, sig_tcmp_Eq, sig_eqb_eq. reflexivity. Qed.
+Lemma sig_cmp_T4 a b c : T4 (sig_cmp a b) (sig_cmp b c) (sig_cmp a c).
+Proof. rewrite !sig_cmp_tcmp. apply sig_tcmp_T4. Qed.
+
+Lemma sigs_cmp_refl m : lex sig_cmp m m = Eq.
+Proof. apply lex_refl. induction m; constructor; auto. apply sig_cmp_refl. Qed.
+Lemma sigs_cmp_dual m m' : lex sig_cmp m' m = CompOpp (lex sig_cmp m m').
+Proof. apply lex_dual. clear. induction m; constructor; auto. intros. apply sig_cmp_dual. Qed.
+Lemma sigs_eqb_sym m m' : list_eqb sig_eqb m m' = list_eqb sig_eqb m' m.
+Proof. apply list_eqb_sym. clear. induction m; constructor; auto. intros. apply sig_eqb_sym. Qed.
+
